@@ -43,7 +43,8 @@ func propC06(r *Run) {
 		pw := map[string]string{"zq-root-admin": "pw-of-root", "zq-second-admin": "pw-of-second", "zq-plain-user": "pw-of-plain", "zq-other-user": "pw-of-other"}
 		admins := map[string]bool{"zq-root-admin": true, "zq-second-admin": true}
 		i := 0
-		for u, p := range pw {
+		for _, u := range sortedKeysA(pw) {
+			p := pw[u]
 			salt := make([]byte, def.SaltLen())
 			salt[0] = byte(len(u))
 			ext := ".user"
